@@ -551,6 +551,54 @@ def rangeList (from_ upto : JV N) (p : PInfo N) : Res N :=
     | _, _ => none
   | _, _ => errS "Range bounds must be numeric"
 
+/-! proleptic Gregorian calendar (Howard Hinnant's `days_from_civil` / `civil_from_days`) for the
+date builtins of the jq dialect -/
+def daysFromCivil (y0 m d : Int) : Int :=
+  let y := if m ≤ 2 then y0 - 1 else y0
+  let era := y.fdiv 400
+  let yoe := y - era * 400
+  let doy := (153 * (m + (if m > 2 then -3 else 9)) + 2) / 5 + d - 1
+  let doe := yoe * 365 + yoe / 4 - yoe / 100 + doy
+  era * 146097 + doe - 719468
+
+def civilFromDays (z0 : Int) : Int × Int × Int :=
+  let z := z0 + 719468
+  let era := z.fdiv 146097
+  let doe := z - era * 146097
+  let yoe := (doe - doe / 1460 + doe / 36524 - doe / 146096) / 365
+  let y := yoe + era * 400
+  let doy := doe - (365 * yoe + yoe / 4 - yoe / 100)
+  let mp := (5 * doy + 2) / 153
+  let d := doy - (153 * mp + 2) / 5 + 1
+  let m := if mp < 10 then mp + 3 else mp - 9
+  (if m ≤ 2 then y + 1 else y, m, d)
+
+/-- `timegm` of broken-down fields (month 0-based, out-of-range month / day normalised) -/
+def timegm (y mon0 dd h mi sec : Int) : Int :=
+  let y' := y + mon0.fdiv 12
+  let m := mon0.fmod 12 + 1
+  (daysFromCivil y' m 1 + (dd - 1)) * 86400 + h * 3600 + mi * 60 + sec
+
+/-- jq's broken-down time `[year, month0, mday, hours, minutes, seconds, wday, yday]` -/
+def brokenDown (t : Int) : JV N :=
+  let days := t.fdiv 86400
+  let r := t.fmod 86400
+  let (y, m, d) := civilFromDays days
+  let wday := (days + 4).fmod 7
+  let yday := days - daysFromCivil y 1 1
+  .arr ([y, m - 1, d, r / 3600, r % 3600 / 60, r % 60, wday, yday].map JV.ofInt)
+
+/-- `YYYY-MM-DDTHH:MM:SSZ` with exactly these field widths -/
+def parseIso (s : String) : Option (Int × Int × Int × Int × Int × Int) :=
+  let cs := s.toList
+  let num (xs : List Char) : Option Int := if !xs.isEmpty && xs.all Char.isDigit then some (String.ofList xs).toInt! else none
+  match cs with
+  | [y1, y2, y3, y4, '-', m1, m2, '-', d1, d2, 'T', h1, h2, ':', i1, i2, ':', s1, s2, 'Z'] =>
+    (match num [y1, y2, y3, y4], num [m1, m2], num [d1, d2], num [h1, h2], num [i1, i2], num [s1, s2] with
+     | some y, some m, some d, some h, some i, some sc => some (y, m, d, h, i, sc)
+     | _, _, _, _, _, _ => none)
+  | _ => none
+
 /-- drop every preserved number spelling inside a value -/
 def plainAll (fuel : Nat) (v : JV N) : JV N :=
   match fuel with
@@ -595,7 +643,7 @@ def primNames : List (String × Nat) :=
    ("_unique_by_impl",1),("_min_by_impl",1),("_max_by_impl",1),("min",0),("max",0),("floor",0),("sqrt",0),
    ("ceil",0),("round",0),("fabs",0),("infinite",0),("nan",0),("isinfinite",0),("isnan",0),("explode",0),
    ("implode",0),("ltrimstr",1),("rtrimstr",1),("startswith",1),("endswith",1),("split",1),("trim",0),
-   ("ltrim",0),("rtrim",0),("_unmodelled",0),("_split_j",1),("trunc",0),("have_literal_numbers",0),("test",1),("test",2),("match",1),("match",2),("capture",1),("capture",2),("scan",1),("scan",2),("splits",1),("splits",2),("sub",2),("sub",3),("gsub",2),("gsub",3),("split",2),("_trim_j",0),("_ltrim_j",0),("_rtrim_j",0),("_strindices",1),("getpath",1),("setpath",2),("delpaths",1)]
+   ("ltrim",0),("rtrim",0),("_unmodelled",0),("_split_j",1),("trunc",0),("sin",0),("cos",0),("tan",0),("asin",0),("acos",0),("atan",0),("sinh",0),("cosh",0),("tanh",0),("exp",0),("exp2",0),("exp10",0),("log",0),("log2",0),("log10",0),("cbrt",0),("pow",2),("gmtime",0),("mktime",0),("strptime",1),("strftime",1),("have_literal_numbers",0),("test",1),("test",2),("match",1),("match",2),("capture",1),("capture",2),("scan",1),("scan",2),("splits",1),("splits",2),("sub",2),("sub",3),("gsub",2),("gsub",3),("split",2),("_trim_j",0),("_ltrim_j",0),("_rtrim_j",0),("_strindices",1),("getpath",1),("setpath",2),("delpaths",1)]
 
 /-- the C-coded builtins, by name and evaluated arguments (cartesian product already taken) -/
 def prim (d : Dialect) (name : String) (args : List (JV N)) (v : JV N) (p : PInfo N) : Res N :=
@@ -743,15 +791,23 @@ def prim (d : Dialect) (name : String) (args : List (JV N)) (v : JV N) (p : PInf
   | "implode", [] =>
     (match v with
      | .arr xs =>
-       let cps := xs.map fun x => match x with
-         | .num n => (NumOps.toInt? n)
-         | _ => none
-       if cps.all (fun (c : Option Int) => match c with | some i => decide (0 ≤ i) && decide (i < 0xD800) | none => false) then
-         ok (.str (String.ofList (cps.map fun c => Char.ofNat (c.getD 0).toNat)))
-       else
-         (match xs.find? (fun x => match x with | .num n => NumOps.isNan n | _ => true) with
-          | some bad => subjErr bad "can't be imploded, unicode codepoint needs to be numeric"
-          | none => none)
+       (match xs.find? (fun x => match x with | .num n => NumOps.isNan n | _ => true) with
+        | some bad => subjErr bad "can't be imploded, unicode codepoint needs to be numeric"
+        | none =>
+          -- codepoint = the number truncated; anything that is not a Unicode scalar value becomes U+FFFD
+          let cp (x : JV N) : Option Char :=
+            match x with
+            | .num n =>
+              (match NumOps.math "trunc" n with
+               | some t =>
+                 (match NumOps.toInt? t with
+                  | some i =>
+                    if 0 ≤ i && i ≤ 0x10FFFF && !(0xD800 ≤ i && i ≤ 0xDFFF) then some (Char.ofNat i.toNat) else some '\uFFFD'
+                  | none => if NumOps.isInf n then some '\uFFFD' else none)
+               | none => none)
+            | _ => none
+          let cs := xs.map cp
+          if cs.any (·.isNone) then none else ok (.str (String.ofList (cs.map (·.getD ' ')))))
      | _ => errS "implode input must be an array")
   | "ltrimstr", [x] =>
     (match v, x with
@@ -814,9 +870,68 @@ def prim (d : Dialect) (name : String) (args : List (JV N)) (v : JV N) (p : PInf
      | _ => errS "Paths must be specified as an array")
   | "trunc", [] =>
     (match v with
-     | .num n => (NumOps.math "trunc" n).bind fun r => ok (.num r)
+     | .num n => (NumOps.math (if d.succinctly then "trunc_i64" else "trunc") n).bind fun r => ok (.num r)
      | v => if d.succinctly then errS "math function requires number" else subjErr v "number required")
   | "have_literal_numbers", [] => ok (.bool true)
+  | "sin", [] | "cos", [] | "tan", [] | "asin", [] | "acos", [] | "atan", [] | "sinh", [] | "cosh", [] | "tanh", []
+  | "exp", [] | "exp2", [] | "exp10", [] | "log", [] | "log2", [] | "log10", [] | "cbrt", [] =>
+    -- libm: only in the jq dialect (succinctly ships its own libm; last-bit differences are not modelled)
+    if d.succinctly then none else
+    (match v with
+     | .num n => (NumOps.math name n).bind fun r => ok (.num r)
+     | v => subjErr v "number required")
+  | "pow", [a, b] =>
+    if d.succinctly then none else
+    (match a, b with
+     | .num x, .num y => (NumOps.math2 "pow" x y).bind fun r => ok (.num r)
+     | _, _ => none)
+  | "gmtime", [] =>
+    if d.succinctly then none else
+    (match v with
+     | .num n =>
+       (match NumOps.toInt? n with
+        | some t => ok (brokenDown t)
+        | none => none)
+     | _ => errS "gmtime() requires numeric inputs")
+  | "mktime", [] =>
+    if d.succinctly then none else
+    (match v with
+     | .arr xs =>
+       let ints := xs.map fun x => match x with | .num n => NumOps.toInt? n | _ => none
+       (match ints with
+        | some y :: some mo :: some dd :: some h :: some mi :: some sec :: _ => ok (JV.ofInt (timegm y mo dd h mi sec))
+        | _ => none)
+     | _ => errS "mktime requires array inputs")
+  | "strptime", [f] =>
+    if d.succinctly then none else
+    (match v, f with
+     | .str s, .str "%Y-%m-%dT%H:%M:%SZ" =>
+       (match parseIso s with
+        | some (y, mo, dd, h, mi, sec) => ok (brokenDown (timegm y (mo - 1) dd h mi sec))
+        | none => none)
+     | .str s, .str fmt =>
+       if fmt == "%Y-%m-%d" && !(s.toList.headD 'x').isDigit then errS s!"date \"{s}\" does not match format \"{fmt}\""
+       else none
+     | _, _ => errS "strptime/1 requires string inputs and arguments")
+  | "strftime", [f] =>
+    if d.succinctly then none else
+    (match f with
+     | .str "%Y-%m-%dT%H:%M:%SZ" =>
+       let fromT (t : Int) : Res N :=
+         let (y, mo, dd) := civilFromDays (t.fdiv 86400)
+         let r := t.fmod 86400
+         let p2 (i : Int) : String := if i < 10 then "0" ++ toString i else toString i
+         let y4 := let ys := toString y; String.ofList (List.replicate (4 - ys.length) '0') ++ ys
+         ok (.str s!"{y4}-{p2 mo}-{p2 dd}T{p2 (r / 3600)}:{p2 (r % 3600 / 60)}:{p2 (r % 60)}Z")
+       (match v with
+        | .num n => (NumOps.toInt? n).bind fromT
+        | .arr xs =>
+          let ints := xs.map fun x => match x with | .num n => NumOps.toInt? n | _ => none
+          (match ints with
+           | some y :: some mo :: some dd :: some h :: some mi :: some sec :: _ => fromT (timegm y mo dd h mi sec)
+           | _ => none)
+        | _ => errS "strftime/1 requires parsed datetime inputs")
+     | _ => none)
   | "tostream_list", [] => ok (.arr v.tostream)
   | _, _ => none
 
@@ -958,6 +1073,7 @@ def succName (name : String) (arity : Nat) : String :=
   | "tostream", 0 => "tostream"
   | "last", 1 => "_last_s"
   | "nth", 2 => "_nth_s"
+  | "limit", 2 => "_limit_s"
   | "reverse", 0 => "_reverse_s"
   | "flatten", 0 => "_flatten_s"
   | "flatten", 1 => "_flatten1_s"
